@@ -172,6 +172,10 @@ def run(ctx):
     midx = []
     for i, x in enumerate(rej):
         pm = x['pm']
+        if any(10 in t['val'] for t in (x.get('toks') or [])):
+            # a token that itself spans lines: "the source line" of the message is not well defined; not judged
+            ctx.cov['skipped_token_spans_lines'] = ctx.cov.get('skipped_token_spans_lines', 0) + 1
+            continue
         if pm.get('malformed'):
             ctx.violation('message-malformed:%s' % pm['malformed'], 'error message has no caret/source structure',
                           {'sql': x['sql'], 'msg': x['msg']})
